@@ -20,6 +20,7 @@ import (
 	"strings"
 	"testing"
 
+	"github.com/Comcast/rulio/core"
 	"github.com/Comcast/rulio/service"
 	"github.com/Comcast/rulio/sys"
 	"gopkg.in/yaml.v2"
@@ -59,7 +60,7 @@ var c18URIs = map[string]string{
 	"remRule": "/loc/rules/rem", "listRules": "/loc/rules/list", "disable": "/loc/rules/disable", "enable": "/loc/rules/enable",
 	"enabled": "/loc/rules/enabled", "ingest": "/loc/events/ingest", "size": "/loc/admin/size", "clear": "/loc/admin/clear",
 	"create": "/loc/admin/create", "getParents": "/loc/parents", "setParents": "/loc/parents", "unknown": "/loc/no/such/thing",
-	"emptyPost": "/loc/facts/add",
+	"emptyPost": "/loc/facts/add", "js": "/loc/util/js",
 }
 
 func genC18(t *rapid.T) c18Case {
@@ -81,7 +82,7 @@ func genC18(t *rapid.T) c18Case {
 	for i := 0; i < n; i++ {
 		l := fmt.Sprintf("r%d", i)
 		op := rapid.SampledFrom([]string{"addFact", "addFact", "addFact", "getFact", "remFact", "search", "search", "take", "replace", "query", "addRule", "addRule",
-			"remRule", "listRules", "disable", "enable", "enabled", "ingest", "ingest", "size", "clear", "create", "getParents", "setParents", "unknown"}).Draw(t, l+".op")
+			"remRule", "listRules", "disable", "enable", "enabled", "ingest", "ingest", "size", "clear", "create", "getParents", "setParents", "unknown", "js"}).Draw(t, l+".op")
 		p := M{"location": rapid.SampledFrom([]string{"here", "here", "here", "loc two"}).Draw(t, l+".loc")}
 		switch op {
 		case "addFact":
@@ -112,6 +113,16 @@ func genC18(t *rapid.T) c18Case {
 			p["rule"] = M{"when": M{"pattern": M{"e": "?x"}}, "condition": M{"pattern": M{"k": "?x"}}, "action": M{"code": "'fired ' + x"}}
 			if rapid.IntRange(0, 3).Draw(t, l+".id?") != 0 {
 				p["id"] = id(l + ".id")
+			}
+		case "js":
+			p["code"] = rapid.SampledFrom([]string{"1+2", "'a' + 'b'", "({a: 1, b: [true, null]})", "[1, 'x']", "null", "var q = 5; q * 2", "'" + "é&=%" + "'"}).Draw(t, l+".code")
+			switch rapid.IntRange(0, 5).Draw(t, l+".badcode") {
+			case 0:
+				delete(p, "code")
+			case 1:
+				p["code"] = rapid.SampledFrom([]interface{}{5.0, true, M{"x": 1.0}}).Draw(t, l+".illtypedcode")
+			case 2:
+				p["code"] = "((("
 			}
 		case "ingest":
 			ev := M{"e": str(l + ".e")}
@@ -390,6 +401,17 @@ func c18Direct(s *sys.System, r c18Req, gens map[string]bool) c18Result {
 			return fail
 		}
 		return c18Result{true, fmt.Sprint(id, en)}
+	case "js":
+		code, ok := str("code")
+		if !ok {
+			return fail
+		}
+		bs := core.Bindings{}
+		x, err := s.RunJavascript(ctx, loc, code, nil, &bs, nil)
+		if err != nil {
+			return fail
+		}
+		return c18Result{true, vlib.JSON(x)}
 	case "ingest":
 		ev, ok := mp("event")
 		if !ok {
@@ -535,6 +557,8 @@ func c18Interpret(op string, body string, p M, gens map[string]bool) (string, er
 		}
 		sort.Strings(vals)
 		return strings.Join(vals, "|"), nil
+	case "js":
+		return vlib.JSON(m["result"]), nil
 	case "size":
 		return fmt.Sprint(m["size"]), nil
 	case "clear", "create":
@@ -576,7 +600,7 @@ func c18Render(kind, prefix string, r c18Req) (method, target, body string, ok b
 	// a query string or a form delivers every parameter as a string: an
 	// ill-typed id or uri cannot be expressed there
 	stringsOnly := true
-	for _, k := range []string{"id", "uri"} {
+	for _, k := range []string{"id", "uri", "code"} {
 		if v, have := r.Params[k]; have {
 			if _, isStr := v.(string); !isStr {
 				stringsOnly = false
